@@ -1,12 +1,11 @@
 import Jap.Core.Channels
+import Jap.Lemmas.ChannelsText
 /-!
-Channels: the encoding `enc` of values as leaves of the Namespace model is injective (equal namespaces hold equal values).
+Channels: the encoding `enc` of values as leaves of the Namespace model loses nothing: equal leaves hold equal values
+(a yes/no setting is its boolean, `norm`).
 -/
 namespace Jap.Channels
 open Jap.NS
-
-
-/-! ### the encoding of values as namespace leaves loses nothing -/
 
 def charsOfV : List V → Option (List Char)
   | [] => some []
@@ -22,26 +21,30 @@ def decScalar : V → Option Scalar
   | .none => some .null
   | .tup [.atom 0, .atom b] => some (.bool (b != 0))
   | .tup [.atom 1, .lst cs] => (charsOfV cs).map (fun l => .str (String.ofList l))
+  | .tup [.atom 2, .lst cs] => (charsOfV cs).bind (fun l => (readNum l).map .num)
   | _ => none
 
-theorem decScalar_enc (s : Scalar) : decScalar (encScalar s) = some s := by
+theorem decScalar_enc (s : Scalar) (hs : safeScalar s = true) : decScalar (encScalar s) = some s := by
   cases s with
   | int i => rfl
   | null => rfl
   | bool b => cases b <;> rfl
   | str x => simp [encScalar, decScalar, charsOfV_enc, String.ofList_toList]
+  | num t => simp [encScalar, decScalar, charsOfV_enc, readNum_tokChars t hs]
 
-theorem encScalar_inj {a b : Scalar} (h : encScalar a = encScalar b) : a = b := by
+theorem encScalar_inj {a b : Scalar} (ha : safeScalar a = true) (hb : safeScalar b = true) (h : encScalar a = encScalar b) : a = b := by
   have := congrArg decScalar h
-  simpa [decScalar_enc] using this
+  simpa [decScalar_enc a ha, decScalar_enc b hb] using this
 
-theorem map_encScalar_inj : ∀ {xs ys : List Scalar}, xs.map encScalar = ys.map encScalar → xs = ys
-  | [], [], _ => rfl
-  | [], _ :: _, h => by simp at h
-  | _ :: _, [], h => by simp at h
-  | a :: r, b :: r', h => by
+theorem map_encScalar_inj : ∀ {xs ys : List Scalar}, xs.all safeScalar = true → ys.all safeScalar = true →
+    xs.map encScalar = ys.map encScalar → xs = ys
+  | [], [], _, _, _ => rfl
+  | [], _ :: _, _, _, h => by simp at h
+  | _ :: _, [], _, _, h => by simp at h
+  | a :: r, b :: r', hx, hy, h => by
+    simp only [List.all_cons, Bool.and_eq_true] at hx hy
     simp only [List.map_cons, List.cons.injEq] at h
-    rw [encScalar_inj h.1, map_encScalar_inj h.2]
+    rw [encScalar_inj hx.1 hy.1 h.1, map_encScalar_inj hx.2 hy.2 h.2]
 
 theorem map_pair_inj : ∀ {xs ys : List (String × Int)},
     xs.map (fun kv => ((⟨false, kv.1⟩ : SKey), V.atom kv.2)) = ys.map (fun kv => ((⟨false, kv.1⟩ : SKey), V.atom kv.2)) → xs = ys
@@ -53,22 +56,45 @@ theorem map_pair_inj : ∀ {xs ys : List (String × Int)},
     have : a = b := Prod.ext h.1.1 h.1.2
     rw [this, map_pair_inj h.2]
 
-theorem enc_inj {v w : Val} (h : enc v = enc w) : v = w := by
+def isPlainV : Val → Bool
+  | .yesno _ => false
+  | _ => true
+
+theorem enc_inj_plain {v w : Val} (pv : isPlainV v = true) (pw : isPlainV w = true) (sv : safeVal v = true) (sw : safeVal w = true)
+    (h : enc v = enc w) : v = w := by
   cases v with
+  | yesno _ => simp [isPlainV] at pv
   | sc a =>
     cases w with
-    | sc b => simp only [enc] at h; rw [encScalar_inj h]
+    | yesno _ => simp [isPlainV] at pw
+    | sc b => simp only [enc] at h; rw [encScalar_inj sv sw h]
     | list ys => cases a <;> simp [enc, encScalar] at h
     | dict kvs => cases a <;> simp [enc, encScalar] at h
   | list xs =>
     cases w with
+    | yesno _ => simp [isPlainV] at pw
     | sc b => cases b <;> simp [enc, encScalar] at h
-    | list ys => simp only [enc, V.lst.injEq] at h; rw [map_encScalar_inj h]
+    | list ys => simp only [enc, V.lst.injEq] at h; rw [map_encScalar_inj sv sw h]
     | dict kvs => simp [enc] at h
   | dict kvs =>
     cases w with
+    | yesno _ => simp [isPlainV] at pw
     | sc b => cases b <;> simp [enc, encScalar] at h
     | list ys => simp [enc] at h
     | dict kvs' => simp only [enc, V.dct.injEq] at h; rw [map_pair_inj h]
+
+theorem enc_norm (v : Val) : enc (norm v) = enc v := by
+  cases v <;> rfl
+
+theorem norm_plain_safe (v : Val) (sv : safeVal v = true) : isPlainV (norm v) = true ∧ safeVal (norm v) = true := by
+  cases v with
+  | yesno w => exact ⟨rfl, rfl⟩
+  | sc s => exact ⟨rfl, sv⟩
+  | list xs => exact ⟨rfl, sv⟩
+  | dict kvs => exact ⟨rfl, sv⟩
+
+theorem enc_inj {v w : Val} (sv : safeVal v = true) (sw : safeVal w = true) (h : enc v = enc w) : norm v = norm w := by
+  rw [← enc_norm v, ← enc_norm w] at h
+  exact enc_inj_plain (norm_plain_safe v sv).1 (norm_plain_safe w sw).1 (norm_plain_safe v sv).2 (norm_plain_safe w sw).2 h
 
 end Jap.Channels
